@@ -64,6 +64,20 @@ var boolPool = []hx.Sexp{cvBool(true), cvBool(false)}
 var colorTy = &Ty{K: "enum", Name: "Color", Vals: []string{"RED", "GREEN", "BLUE"}}
 var sizeTy = &Ty{K: "enum", Name: "Size", Vals: []string{"S", "M", "L"}}
 
+// shadeTy has a value declared WITHOUT a Go value (`"PALE": {}`): every route hands the resolver nil
+// for it. The models render a coerced enum value by its name, so `(enum PALE)` in a model reply is
+// read as the Go value declared for PALE: nil. That is exact as long as the type never sits directly
+// under a non-null wrapper (there the library's own null checks fire on some routes and not on
+// others — a schema author's nil at a non-null position, outside the property), which is how it is
+// generated: only by exhaustiveNilEnum, never by the random type generator.
+var shadeTy = &Ty{K: "enum", Name: "Shade", Vals: []string{"DARK", "PALE"}}
+
+func nilValued(enum, value string) bool { return enum == "Shade" && value == "PALE" }
+
+func nilEnums(modelReply string) string {
+	return strings.ReplaceAll(modelReply, "(enum PALE)", "nil")
+}
+
 var scalarNames = []string{"Int", "Float", "String", "Boolean", "ID", "DateTime", "LongInt"}
 
 func allStrings() []string {
